@@ -177,7 +177,13 @@ type Failure struct {
 	Entry    string          `json:"entry"` // which Run function replays it
 	Message  string          `json:"message"`
 	Case     json.RawMessage `json:"case"`
+	// GenCatalogue names the generated catalogue of named types the test binary
+	// was built with ("<seed>/<n>"): the driver regenerates it before a replay.
+	GenCatalogue string `json:"gen_catalogue,omitempty"`
 }
+
+// GenCatalogue is set by the checks package from the generated catalogue's constants.
+var GenCatalogue string
 
 var failMu sync.Mutex
 
@@ -192,7 +198,7 @@ func WriteFailure(property, entry, msg string, cs interface{}) {
 	if err != nil {
 		b, _ = json.Marshal(fmt.Sprintf("%+v", cs))
 	}
-	f := Failure{Property: property, Entry: entry, Message: msg, Case: b}
+	f := Failure{Property: property, Entry: entry, Message: msg, Case: b, GenCatalogue: GenCatalogue}
 	out, _ := json.MarshalIndent(f, "", " ")
 	failMu.Lock()
 	defer failMu.Unlock()
